@@ -645,6 +645,7 @@ def step (line : String) : String :=
     match v.toInt? with
     | some n => Name.toString (Model.tagName n)
     | none => "bad-op"
+  | ["spec-reserved-tags"] => " ".intercalate (Spec.ieeeReservedTag.map toString)
   | ["tagtable"] =>
     s!"default={(Name.toString Gen.tagNameDefault).replace " " "\x01"} " ++
       " ".intercalate (Gen.tagNameCases.map fun (v, n) => s!"{v} {Name.toString n}")
